@@ -259,6 +259,8 @@ func vfC05Scenarios(thorough bool) []*vfGWScenario {
 		mk(router+"-api", router, 0, nil, []string{"conn:a"}, append([]string{"conn:b", "disc:a", "sub:a:t", "unsub:a:t", "sub:b:t"}, api...))
 		mk(router+"-streams", router, 0, nil, []string{"join:t"}, []string{"conn:a", "disc:a", "hold:a", "release:a", "failstream:a", "inreset:a", "inopen:a", "outreset:a", "sub:a:t", "leave:t", "join:t", "relay:u", "adv:1100"})
 		mk(router+"-retry", router, 1, nil, []string{"conn:a", "conn:b"}, []string{"gate:a", "ungate:a", "join:t", "leave:t", "relay:t", "unrelay:t", "join:u", "leave:u", "adv:1100", "disc:a", "conn:a"})
+		// the jitter of a scheduled retry (1..1000 ms) is the explorer's: both ends, per announcing event
+		out[len(out)-1].DevKinds, out[len(out)-1].DevMax = []string{"jitter"}, 1
 	}
 	// a stream goroutine descheduled between two hand-offs to the event loop (named yield points, one hold at a time)
 	for _, router := range []string{"flood", "gossip"} {
